@@ -19,7 +19,7 @@ k<0 or k>n, an error or the whole list for k=0.
 """
 import itertools
 
-from ..core import WholeFloats, Sub, fail, lit, isnum
+from ..core import Siblings, WholeFloats, Sub, fail, lit, isnum
 
 BOUNDS = {
     'quick': 'INDEX: every nested array R x C with R,C <= 4 (numeric and text, position-coded elements) as '
@@ -713,4 +713,21 @@ class LookupWholeFloats(WholeFloats):
     ]
 
 
-SUBS = [Choose(), IndexGrid(), IndexVector(), MatchExact(), MatchSorted(), IndexMatch(), AfterFloatUse(), LookupWholeFloats()]
+NEEDS_ZYGOTE = True
+
+
+class LookupSiblings(Siblings):
+    name = 'c18.siblings'
+    GROUPS = [
+        (['MATCH({1},{0},0)', 'MATCH({1},{0},1)', 'MATCH({1},{0},-1)', 'MATCH({1},{0})', 'INDEX({0},{1})', 'INDEX({0},1,{1})',
+          'INDEX({0},{1},1)', 'INDEX({0},0,{1})', 'INDEX({0},{1},0)', 'CHOOSE({1},1,2,3)', 'CHOOSE({1},{0},2,3)',
+          'INDEX({0},MATCH({1},{0},0))'],
+         [('={1,2,3}', 2), ('={3,2,1}', 2), ('={1;2;3}', 3), ('={1,2;3,4}', 2), ('={1,2;3,4}', 1), ('={1,2,3}', 4),
+          ('={"a","B","c"}', 2), ('={10,20,30}', 1), ('={2,2,2}', 2)]),
+        (['MATCH({1},{0},0)', 'MATCH({1},{0},1)', 'MATCH({1},{0},-1)', 'INDEX({0},MATCH({1},{0},0))'],
+         [('={"a","B","c"}', 'b'), ('={"apple","berry","cherry"}', 'b*'), ('={"apple","berry","cherry"}', '?pple'),
+          ('={"a","B","c"}', 'd')]),
+    ]
+
+
+SUBS = [Choose(), IndexGrid(), IndexVector(), MatchExact(), MatchSorted(), IndexMatch(), AfterFloatUse(), LookupWholeFloats(), LookupSiblings()]
